@@ -785,8 +785,12 @@ func genOpts(key string, proxy bool) msgx.GenOpts {
 func direct(r *vh.Run, c c16Case) {
 	rng := r.Rng(c.Stream, c.Idx)
 	key := fmt.Sprintf("h%d", c.Idx)
-	reqSpec := msgx.GenRequest(rng, genOpts(key, false))
-	respSpec := msgx.GenResponse(rng, genOpts(key, false), reqSpec.Method)
+	o := genOpts(key, false)
+	if !r.Thorough() && c.Idx%3 != 0 {
+		o.NoBig = true // quick tier: the 65 537 B / 1 MiB bodies in a third of the cases only
+	}
+	reqSpec := msgx.GenRequest(rng, o)
+	respSpec := msgx.GenResponse(rng, o, reqSpec.Method)
 	reqWire, respWire := reqSpec.Wire(), respSpec.Wire()
 	r.Eval(1)
 	witness := map[string]interface{}{"request": msgx.Excerpt(reqWire, 700), "response": msgx.Excerpt(respWire, 500), "options": c.Opt,
